@@ -14,7 +14,8 @@ ASSUMPTIONS = [
     '(main preamble, change preamble or the first diff) has symbolic content, all other sections are concrete and '
     'independently present/absent; per-section options (encoding, indent, line_endings, mimetype, diff type) enumerated',
     'trees whose serialisation raises (content not encodable in the effective codec) are outside the property',
-    'metadata values are concrete (json is outside the model)',
+    'metadata: concrete objects, and (focus file.meta) an object with a symbolic string and a symbolic integer; JSON text '
+    'comes from CPython\'s pure-Python encoder/decoder under instrumentation (sx/jsonmodel.py)',
 ]
 
 
